@@ -240,6 +240,14 @@ theorem C19_pearson_stat_nonneg (kx ky ks : Nat) (rows : List CIRow) :
   obtain ⟨j, _, rfl⟩ := List.mem_map.mp hz
   exact (C19_pearson_cell _ _ (expectedAt_nonneg s i j)).1
 
+/-- **Yates' correction moves the observed count towards the expected one and never past it** (so a corrected
+    Pearson cell is never larger than the uncorrected one, and a table with O = E stays at statistic 0) -/
+theorem C19_yates_between (o e : Rat) :
+    (o ≤ e → o ≤ yates o e ∧ yates o e ≤ e) ∧ (e ≤ o → e ≤ yates o e ∧ yates o e ≤ o) := by
+  unfold yates
+  simp only
+  constructor <;> intro h <;> split_ifs <;> constructor <;> linarith
+
 /-- extraction tie: the named wrappers hand the documented λ to the power-divergence test -/
 theorem C19_lambda_tie : Generated.ciLambdaTable =
     [("chi_square", "pearson"), ("g_sq", "log-likelihood"), ("log_likelihood", "log-likelihood"),
